@@ -1778,27 +1778,24 @@ impl Evaluator {
             *destination = operands[0].clone();
             return;
         }
-        let mut product_vec = vec![];
-        let mut i = 0;
-        while i < operands.len() {
-            let mut product = Ciphertext::new();
-            self.multiply(&operands[i], &operands[i + 1], &mut product);
-            self.relinearize_inplace(&mut product, relin_keys);
-            product_vec.push(product);
-            i += 2;
+        // Multiply neighbours pairwise, carrying an unpaired last operand over, until one product is left.
+        let mut product_vec = operands.to_vec();
+        while product_vec.len() > 1 {
+            let mut next = Vec::with_capacity((product_vec.len() + 1) / 2);
+            let mut i = 0;
+            while i + 1 < product_vec.len() {
+                let mut product = Ciphertext::new();
+                self.multiply(&product_vec[i], &product_vec[i + 1], &mut product);
+                self.relinearize_inplace(&mut product, relin_keys);
+                next.push(product);
+                i += 2;
+            }
+            if product_vec.len() % 2 == 1 {
+                next.push(product_vec[product_vec.len() - 1].clone());
+            }
+            product_vec = next;
         }
-        if operands.len() % 2 == 1 {
-            product_vec.push(operands[operands.len() - 1].clone());
-        }
-        i = 0;
-        while i < product_vec.len() - 1 {
-            let mut product = Ciphertext::new();
-            self.multiply(&product_vec[i], &product_vec[i + 1], &mut product);
-            self.relinearize_inplace(&mut product, relin_keys);
-            product_vec[i] = product;
-            i += 2;
-        }
-        *destination = product_vec[product_vec.len() - 1].clone();
+        *destination = product_vec.pop().unwrap();
     }
 
     fn translate_plain_inplace(&self, encrypted: &mut Ciphertext, plain: &Plaintext, is_subtract: bool) {
